@@ -38,16 +38,78 @@ Proof.
   destruct (Nat.ltb_spec o1 n), (Nat.ltb_spec o2 n); try lia. reflexivity.
 Qed.
 
-(* every text format is a header that does not depend on the message, followed by the message verbatim *)
+(* every text format is a header that depends neither on the message nor on the key-value pairs, followed by the pairs
+   as kv_text renders them ("{k=v, k2=v2} " in the order of the source, nothing without pairs), followed by the message
+   verbatim - painted as a whole when the format is a coloured one.  So pairs and message appear exactly once, at the end. *)
 Definition with_msg (r : frec) (m : bytes) : frec :=
-  {| fr_level := fr_level r; fr_module := fr_module r; fr_file := fr_file r; fr_line := fr_line r; fr_thread := fr_thread r; fr_msg := m |}.
+  {| fr_level := fr_level r; fr_module := fr_module r; fr_file := fr_file r; fr_line := fr_line r; fr_thread := fr_thread r;
+     fr_kv := fr_kv r; fr_msg := m |}.
+Definition with_kv (r : frec) (kvs : list (bytes * kvval)) : frec :=
+  {| fr_level := fr_level r; fr_module := fr_module r; fr_file := fr_file r; fr_line := fr_line r; fr_thread := fr_thread r;
+     fr_kv := kvs; fr_msg := fr_msg r |}.
 Theorem C20_text :
+  forall k colored ts r, k <> FJson ->
+    exists header, forall kvs m,
+      format_record k colored ts (with_kv (with_msg r m) kvs)
+      = header ++ kv_text kvs ++ (if colored then paint (fr_level r) m else m).
+Proof.
+  intros k colored ts r Hk.
+  destruct k; try contradiction; destruct colored; eexists; intros kvs m;
+    cbn [format_record with_kv with_msg fr_level fr_module fr_file fr_line fr_thread fr_kv fr_msg];
+    rewrite !app_assoc; reflexivity.
+Qed.
+
+(* the former statement: header (now with the pairs of the record in it) and then the message verbatim *)
+Corollary C20_text_msg :
   forall k ts r, k <> FJson -> exists header, forall m, format_record k false ts (with_msg r m) = header ++ m.
 Proof.
-  intros k ts r Hk. exists (format_record k false ts (with_msg r [])). intros m.
-  destruct k; try contradiction; cbn [format_record with_msg fr_level fr_module fr_file fr_line fr_thread fr_msg];
-    rewrite ?app_nil_r; rewrite <- ?app_assoc; reflexivity.
+  intros k ts r Hk. destruct (C20_text k false ts r Hk) as [header H]. exists (header ++ kv_text (fr_kv r)). intros m.
+  rewrite <- app_assoc, <- (H (fr_kv r) m). reflexivity.
 Qed.
+
+(* the pairs in the text formats: a value can be read back from its rendering (numbers in decimal, strings in Rust's
+   Debug form), so the rendering determines the value; the Debug form has no control character, and a quote is in it
+   only as the two delimiters and in the escape backslash-quote; with keys free of control characters the pairs stay on the line *)
+Theorem C20_kv_text_roundtrip : forall v, kvval_bytes_ok v -> kv_undebug (kv_debug v) = Some v.
+Proof. exact kv_text_roundtrip. Qed.
+
+Theorem C20_kv_debug_inj : forall v w, kvval_bytes_ok v -> kvval_bytes_ok w -> kv_debug v = kv_debug w -> v = w.
+Proof. exact kv_debug_inj. Qed.
+
+Theorem C20_debug_str_inj : forall a b, Forall is_byte a -> Forall is_byte b -> debug_str a = debug_str b -> a = b.
+Proof. exact debug_str_inj. Qed.
+
+Theorem C20_debug_str_printable : forall s d, In d (debug_str s) -> (32 <= d)%N /\ d <> 127%N.
+Proof. exact debug_str_printable. Qed.
+
+Theorem C20_debug_str_quotes : forall s,
+  debug_str s = [34%N] ++ concat (List.map debug_byte s) ++ [34%N]
+  /\ Forall (fun t => t = [92%N; 34%N] \/ ~ In 34%N t) (List.map debug_byte s).
+Proof. exact debug_str_quotes. Qed.
+
+Theorem C20_kv_text_single_line :
+  forall kvs, Forall (fun kv : bytes * kvval => ok (fst kv)) kvs -> ok (kv_text kvs).
+Proof. exact kv_text_single_line. Qed.
+
+(* the pairs in the JSON format are collected in a map: sorted strictly by key (so no key twice), with exactly the keys
+   of the source, each with the value of its LAST occurrence in the source; no pairs, no map *)
+Theorem C20_kv_map_sorted : forall l, Sorted.Sorted kv_lt (kv_map l).
+Proof. exact kv_map_sorted. Qed.
+
+Theorem C20_kv_map_nodup : forall l, NoDup (List.map fst (kv_map l)).
+Proof. exact kv_map_nodup. Qed.
+
+Theorem C20_kv_map_keys : forall k l, In k (List.map fst (kv_map l)) <-> In k (List.map fst l).
+Proof. exact kv_map_keys. Qed.
+
+Theorem C20_kv_map_lookup : forall k l, assoc k (kv_map l) = assoc k (rev l).
+Proof. exact kv_map_lookup. Qed.
+
+Theorem C20_kv_map_in : forall k v l, In (k, v) (kv_map l) <-> assoc k (rev l) = Some v.
+Proof. exact kv_map_in. Qed.
+
+Theorem C20_kv_map_nil : forall l, kv_map l = [] <-> l = [].
+Proof. exact kv_map_nil_iff. Qed.
 
 (* serde_json's string escaping can be undone, for every byte string: each field of the JSON line decodes to the
    value that went in *)
@@ -60,12 +122,88 @@ Theorem C20_json_single_line : forall ts r,
   Forall is_byte ts -> Forall is_byte (fr_msg r) ->
   (forall m, fr_module r = Some m -> Forall is_byte m) -> (forall f, fr_file r = Some f -> Forall is_byte f) ->
   (forall t, fr_thread r = Some t -> Forall is_byte t) ->
+  kv_bytes_ok (fr_kv r) ->
   forall c, In c (json_line ts r) -> (32 <= c)%N.
 Proof. exact json_line_single_line. Qed.
 
-Check C20_frame. Check C20_text. Check C20_json_roundtrip. Check C20_json_single_line. Check C20_one_timestamp.
+(* the object of the pairs in the JSON line is "{" "key":value , ... "}" over the map, and it decodes back: every key and
+   every string value is recovered exactly by JSON string decoding, every number by reading its decimal digits *)
+Theorem C20_json_kv_roundtrip : forall r, kv_bytes_ok (fr_kv r) ->
+  forall k v, In (k, v) (kv_map (fr_kv r)) ->
+    json_unescape (length (json_escape k)) (json_escape k) = Some k
+    /\ match v with
+       | KStr s => json_kv_value v = json_string s /\ json_unescape (length (json_escape s)) (json_escape s) = Some s
+       | KInt n => json_kv_value v = dec n /\ dec_value (dec n) = n
+       end.
+Proof. exact json_kv_roundtrip. Qed.
+
+Theorem C20_json_kv_object : forall m,
+  json_kv_object m
+  = [123%N] ++ join [44%N] (List.map (fun kv : bytes * kvval => json_string (fst kv) ++ [58%N] ++ json_kv_value (snd kv)) m)
+    ++ [125%N].
+Proof. exact json_kv_object_shape. Qed.
+
+(* ---- examples: a record with the pairs b = 17, a = the string f, quote, o, backslash, o, and b = 1 (in this order) ---- *)
+From Coq Require String.
+Import String.StringSyntax.
+Definition ex_rec : frec :=
+  {| fr_level := 3; fr_module := Some (bs "m"%string); fr_file := Some (bs "f.rs"%string); fr_line := Some 7%N;
+     fr_thread := Some (bs "main"%string);
+     fr_kv := [(bs "b"%string, KInt 17); (bs "a"%string, KStr (bs "f""o\o"%string)); (bs "b"%string, KInt 1)];
+     fr_msg := bs "hi"%string |}.
+
+(* the text formats keep the order of the source and the duplicates *)
+Example ex_kv_text :
+  kv_text (fr_kv ex_rec) = bs "{b=17, a=""f\""o\\o"", b=1} "%string.
+Proof. vm_compute. reflexivity. Qed.
+Example ex_text_default :
+  format_record FDefault false (bs "T"%string) ex_rec = bs "INFO [m] {b=17, a=""f\""o\\o"", b=1} hi"%string.
+Proof. vm_compute. reflexivity. Qed.
+Example ex_text_detailed :
+  format_record FDetailed false (bs "T"%string) ex_rec = bs "[T] INFO [m] f.rs:7: {b=17, a=""f\""o\\o"", b=1} hi"%string.
+Proof. vm_compute. reflexivity. Qed.
+Example ex_text_no_pairs :
+  format_record FDefault false (bs "T"%string) (with_kv ex_rec []) = bs "INFO [m] hi"%string.
+Proof. vm_compute. reflexivity. Qed.
+(* the JSON format has a map: sorted by key, the last b wins *)
+Example ex_kv_map :
+  kv_map (fr_kv ex_rec) = [(bs "a"%string, KStr (bs "f""o\o"%string)); (bs "b"%string, KInt 1)].
+Proof. vm_compute. reflexivity. Qed.
+Example ex_json :
+  format_record FJson false (bs "T"%string) ex_rec
+  = bs "{""level"":""INFO"",""timestamp"":""T"",""thread"":""main"",""module_path"":""m"",""file"":""f.rs"",""line"":7,""kv"":{""a"":""f\""o\\o"",""b"":1},""text"":""hi""}"%string.
+Proof. vm_compute. reflexivity. Qed.
+Example ex_json_no_pairs :
+  format_record FJson false (bs "T"%string) (with_kv ex_rec [])
+  = bs "{""level"":""INFO"",""timestamp"":""T"",""thread"":""main"",""module_path"":""m"",""file"":""f.rs"",""line"":7,""text"":""hi""}"%string.
+Proof. vm_compute. reflexivity. Qed.
+(* and the Debug form of the string value reads back *)
+Example ex_undebug :
+  kv_undebug (bs """f\""o\\o"""%string) = Some (KStr (bs "f""o\o"%string)).
+Proof. vm_compute. reflexivity. Qed.
+
+Check C20_frame. Check C20_text. Check C20_text_msg. Check C20_json_roundtrip. Check C20_json_single_line. Check C20_one_timestamp.
+Check C20_kv_text_roundtrip. Check C20_kv_debug_inj. Check C20_debug_str_inj. Check C20_debug_str_printable.
+Check C20_debug_str_quotes. Check C20_kv_text_single_line.
+Check C20_kv_map_sorted. Check C20_kv_map_nodup. Check C20_kv_map_keys. Check C20_kv_map_lookup. Check C20_kv_map_in. Check C20_kv_map_nil.
+Check C20_json_kv_roundtrip. Check C20_json_kv_object.
 Print Assumptions C20_frame.
 Print Assumptions C20_text.
 Print Assumptions C20_one_timestamp.
 Print Assumptions C20_json_roundtrip.
 Print Assumptions C20_json_single_line.
+Print Assumptions C20_text_msg.
+Print Assumptions C20_kv_text_roundtrip.
+Print Assumptions C20_kv_debug_inj.
+Print Assumptions C20_debug_str_inj.
+Print Assumptions C20_debug_str_printable.
+Print Assumptions C20_debug_str_quotes.
+Print Assumptions C20_kv_text_single_line.
+Print Assumptions C20_kv_map_sorted.
+Print Assumptions C20_kv_map_nodup.
+Print Assumptions C20_kv_map_keys.
+Print Assumptions C20_kv_map_lookup.
+Print Assumptions C20_kv_map_in.
+Print Assumptions C20_kv_map_nil.
+Print Assumptions C20_json_kv_roundtrip.
+Print Assumptions C20_json_kv_object.
